@@ -148,7 +148,9 @@ def case(draw):
         lay = {'cols': ['date', 'description', 'amount'], 'template': None, 'datefmt': '%Y-%m-%d', 'sign': '', 'dialect': 'comma', 'header': True, 'decimal': '.', 'spell': 0,
                'source': 'Repeats'}
         descs = draw(st.sampled_from([['Zqx Corner Cafe', 'ZQX CORNER CAFE', 'Zqx Corner Cafe'], ['ZQX CORNER CAFE', 'zqx corner cafe', 'ZQX CORNER CAFE', 'zqx corner cafe'],
-                                      ['Zqx Corner Cafe', 'Zqx Corner Cafe', 'ZQX OTHER', 'zqx corner cafe', 'Zqx Corner Cafe']]))
+                                      ['Zqx Corner Cafe', 'Zqx Corner Cafe', 'ZQX OTHER', 'zqx corner cafe', 'Zqx Corner Cafe'],
+                                      # a recurring charge no rule covers: the same description five times
+                                      ['ZQX MONTHLY FEE'] * 5, ['ZQX MONTHLY FEE', 'Zqx Corner Cafe', 'ZQX MONTHLY FEE', 'ZQX MONTHLY FEE', 'ZQX MONTHLY FEE']]))
         rows = [{'kind': 'good', 'date': f'2024-04-1{i}', 'unpadded': False, 'cents': 450 + 125 * i, 'style': PLAIN_STYLE, 'desc': d, 'customs': {}, 'loc': '', 'skip': ''}
                 for i, d in enumerate(descs)]
         if b['rules_kind'] == 'rules' and draw(st.booleans()):
